@@ -11,6 +11,12 @@ Theorem C17_code_as_modelled :
   drop_wf OnceInitCell_drop = true.
 Proof. exact cell_as_modelled. Qed.
 
+Theorem C17_code_constructors_agree_with_the_once_state :
+  ctor_wf OnceInitCell_new "new" "uninit" = true /\ ctor_wf OnceInitCell_with_value "with_value" "init" = true /\
+  get_unchecked_wf OnceInitCell_get_unchecked = true /\ fn_body drop_cold = [] /\
+  load_wraps_new OnceInitCell_load = true.
+Proof. exact cell_constructors_agree_with_the_once_state. Qed.
+
 Theorem C17_code_get_or_init_is_get_or_try_init : get_or_init_wf OnceInitCell_get_or_init = true.
 Proof. exact get_or_init_delegates. Qed.
 
